@@ -24,10 +24,15 @@ M = [
   "        assert!(right <= self.width);\n", ""),
  ("c02_ans_mask", "C02", "mask-disagrees-with-table-size", "crates/jxl-coding/src/ans.rs",
   "        let idx = *state & 0xfff;", "        let idx = *state & 0x1fff;"),
- ("c02_transmute_bound", "C02", "transmute-guard", "crates/jxl-vardct/src/dct_select.rs", None, None),
- ("c13_discard_handle", "C13", "temp-dropped", "crates/jxl-grid/src/lib.rs", None, None),
- ("c01_toc_limit_removed", "C01", "entry_count > 65536", "crates/jxl-frame/src/data/toc.rs", None, None),
- ("c01_nb_transforms_limit", "C01", "header.nb_transforms > 512", "crates/jxl-modular/src/lib.rs", None, None),
+ ("c02_transmute_bound", "C02", "transmute-guard", "crates/jxl-vardct/src/dct_select.rs",
+  "        if value <= TransformType::Dct128x256 as u8 {", "        if value <= 27 {"),
+ ("c13_discard_handle", "C13", "temp-dropped", "crates/jxl-frame/src/lib.rs",
+  "            let handle = tracker.alloc::<u8>(size)?;\n            self.bytes.try_reserve(size)?;\n            self.handle = Some(handle);",
+  "            let _ = tracker.alloc::<u8>(size)?;\n            self.bytes.try_reserve(size)?;"),
+ ("c01_toc_limit_removed", "C01", "entry_count > 65536", "crates/jxl-frame/src/data/toc.rs",
+  "        if entry_count > 65536 {\n            return Err(jxl_bitstream::Error::ValidationFailed(\"Too many TOC entries\").into());\n        }\n", ""),
+ ("c01_nb_transforms_limit", "C01", "header.nb_transforms > 512", "crates/jxl-modular/src/lib.rs",
+  "    if header.nb_transforms > 512 {", "    if header.nb_transforms > 5120 {"),
  ("c01_lz77_checked_add", "C01", "R-RAWINT", "crates/jxl-coding/src/lib.rs",
   "                let Some(num_to_copy) = num_to_copy.checked_add(min_length) else {\n                    tracing::error!(num_to_copy, min_length, \"LZ77 num_to_copy overflow\");\n                    return Err(Error::InvalidLz77Symbol);\n                };",
   "                let num_to_copy = num_to_copy + min_length;"),
@@ -38,18 +43,30 @@ M = [
   "                Ok(x) => x,\n                Err(e) => {\n                    return Err(e.into());\n                }\n            };\n            tracing::debug!(\"Image has an embedded ICC profile\");"),
  ("c06_request_region_without_reset", "C06", "region-changed-without-reset", "crates/jxl-render/src/lib.rs",
   "        self.requested_image_region = image_region;\n        self.reset_cache();", "        self.requested_image_region = image_region;"),
- ("c05_snapshot_after_save", "C05", "read-after-own-save", "crates/jxl-render/src/lib.rs", None, None),
- ("c10_jxlc_after_jxlp_allowed", "C10", "table-mismatch", "crates/jxl-bitstream/src/container/parse.rs", None, None),
+ ("c05_snapshot_after_save", "C05", "read-after-own-save", "crates/jxl-render/src/lib.rs",
+  "        let deps = FrameDependence {\n            lf,\n            ref_slots: self.reference,\n        };\n\n        if header.can_reference() {\n            let ref_idx = header.save_as_reference as usize;\n            self.reference[ref_idx] = idx;\n        }",
+  "        if header.can_reference() {\n            let ref_idx = header.save_as_reference as usize;\n            self.reference[ref_idx] = idx;\n        }\n\n        let deps = FrameDependence {\n            lf,\n            ref_slots: self.reference,\n        };"),
+ ("c10_jxlc_after_jxlp_allowed", "C10", "table-mismatch", "crates/jxl-bitstream/src/container/parse.rs",
+  "                                JxlpIndexState::Jxlp(_) | JxlpIndexState::JxlpFinished => {\n                                    tracing::debug!(\"Found jxlc box instead of jxlp box\");\n                                    return Err(Error::InvalidBox);\n                                }",
+  "                                JxlpIndexState::Jxlp(_) => {\n                                    tracing::debug!(\"Found jxlc box instead of jxlp box\");\n                                    return Err(Error::InvalidBox);\n                                }\n                                JxlpIndexState::JxlpFinished => {}"),
  ("c10_box_size_check_removed", "C10", "box_size < 4", "crates/jxl-bitstream/src/container/parse.rs",
   "                            if let Some(box_size) = header.box_size()\n                                && box_size < 4\n                            {\n                                return Err(Error::InvalidBox);\n                            }\n", ""),
  ("c15_swap_68_in_stream", "C15", "orientation-6", "crates/jxl-oxide/src/fb.rs",
   "            6 => (y, width - x - 1),\n            7 => (height - y - 1, width - x - 1),\n            8 => (height - y - 1, x),",
   "            6 => (height - y - 1, x),\n            7 => (height - y - 1, width - x - 1),\n            8 => (y, width - x - 1),"),
- ("c16_swap_dct4x8_sse41", "C16", "transform_x86_64_sse41|Dct4x8", "crates/jxl-render/src/vardct/x86_64/transform.rs", None, None),
- ("c14_frame_header_x0_dist", "C14", "read-x0", "crates/jxl-frame/src/header.rs", None, None),
- ("c07_hashmap_iteration", "C07", "hash-iteration", "crates/jxl-render/src/vardct/mod.rs", None, None),
- ("c07_pool_size_in_decoder", "C07", "banned-call", "crates/jxl-render/src/filter/gabor.rs", None, None),
- ("c13_forget_handle", "C13", "leak", "crates/jxl-frame/src/lib.rs", None, None),
+ ("c16_swap_dct4x8_sse41", "C16", "transform_x86_64_sse41|Dct4x8", "crates/jxl-render/src/vardct/x86_64/transform.rs",
+  "        Dct2 => transform_dct2_x86_64_sse41(coeff),\n        Dct4 => transform_dct4_x86_64_sse2(coeff),\n        Hornuss => generic::transform_hornuss(coeff),\n        Dct4x8 => transform_dct4x8_x86_64_sse2::<false>(coeff),\n        Dct8x4 => transform_dct4x8_x86_64_sse2::<true>(coeff),",
+  "        Dct2 => transform_dct2_x86_64_sse41(coeff),\n        Dct4 => transform_dct4_x86_64_sse2(coeff),\n        Hornuss => generic::transform_hornuss(coeff),\n        Dct4x8 => transform_dct4x8_x86_64_sse2::<true>(coeff),\n        Dct8x4 => transform_dct4x8_x86_64_sse2::<false>(coeff),"),
+ ("c14_frame_header_x0_dist", "C14", "read-x0", "crates/jxl-frame/src/header.rs",
+  "        pub x0:\n            ty(U32(u(8), 256 + u(11), 2304 + u(14), 18688 + u(30)); UnpackSigned)",
+  "        pub x0:\n            ty(U32(u(8), 256 + u(11), 2304 + u(14), 18688 + u(28)); UnpackSigned)"),
+ ("c07_hashmap_iteration", "C07", "hash-iteration", "crates/jxl-render/src/vardct/mod.rs",
+  "    let lf_groups = &mut cache.lf_groups;\n", "    let lf_groups = &mut cache.lf_groups;\n    let _first_group = lf_groups.keys().next().copied();\n", ),
+ ("c07_pool_size_in_decoder", "C07", "banned-call", "crates/jxl-render/src/filter/gabor.rs",
+  "    let width = input.width();\n    let height = input.height();\n    let output_buf = output.buf_mut();",
+  "    let width = input.width();\n    let height = input.height();\n    let _single = !pool.is_multithreaded();\n    let output_buf = output.buf_mut();"),
+ ("c13_forget_handle", "C13", "leak", "crates/jxl-frame/src/lib.rs",
+  "            self.handle = Some(handle);", "            std::mem::forget(handle);"),
 ]
 
 
@@ -84,3 +101,55 @@ def main():
 
 if __name__ == "__main__":
     main()
+
+
+BENIGN = [
+ ("rename_local_in_preserve_current_frame", "crates/jxl-render/src/lib.rs",
+  "            let ref_idx = header.save_as_reference as usize;\n            self.reference[ref_idx] = idx;",
+  "            let slot = header.save_as_reference as usize;\n            self.reference[slot] = idx;"),
+ ("merge_err_arms_jxlc", "crates/jxl-bitstream/src/container/parse.rs",
+  "                                JxlpIndexState::SingleJxlc => {\n                                    tracing::debug!(\"Duplicate jxlc box found\");\n                                    return Err(Error::InvalidBox);\n                                }\n                                JxlpIndexState::Jxlp(_) | JxlpIndexState::JxlpFinished => {\n                                    tracing::debug!(\"Found jxlc box instead of jxlp box\");\n                                    return Err(Error::InvalidBox);\n                                }",
+  "                                JxlpIndexState::SingleJxlc\n                                | JxlpIndexState::Jxlp(_)\n                                | JxlpIndexState::JxlpFinished => {\n                                    tracing::debug!(\"Unexpected jxlc box\");\n                                    return Err(Error::InvalidBox);\n                                }"),
+ ("flip_comparison_toc_limit", "crates/jxl-frame/src/data/toc.rs", "        if entry_count > 65536 {", "        if 65536 < entry_count {"),
+ ("limit_as_ge", "crates/jxl-modular/src/lib.rs", "    if header.nb_transforms > 512 {", "    if header.nb_transforms >= 513 {"),
+ ("can_reference_early_return", "crates/jxl-frame/src/header.rs",
+  "        !self.is_last\n            && (self.duration == 0 || self.save_as_reference != 0)\n            && self.frame_type != FrameType::LfFrame",
+  "        if self.is_last || self.frame_type == FrameType::LfFrame {\n            return false;\n        }\n        self.save_as_reference != 0 || self.duration == 0"),
+ ("orientation_reassociate", "crates/jxl-oxide/src/fb.rs",
+  "            2 => (width - x - 1, y),\n            3 => (width - x - 1, height - y - 1),\n            4 => (x, height - y - 1),\n            5 => (y, x),\n            6 => (y, width - x - 1),",
+  "            2 => (width - 1 - x, y),\n            3 => (width - 1 - x, height - 1 - y),\n            4 => (x, height - 1 - y),\n            5 => (y, x),\n            6 => (y, width - 1 - x),"),
+ ("try_init_match_arm_order", "crates/jxl-oxide/src/lib.rs",
+  "        let image_header = match ImageHeader::parse(&mut bitstream, ()) {\n            Ok(x) => x,\n            Err(e) if e.unexpected_eof() => {\n                return Ok(InitializeResult::NeedMoreData(self));\n            }\n            Err(e) => {\n                return Err(e.into());\n            }\n        };",
+  "        let image_header = match ImageHeader::parse(&mut bitstream, ()) {\n            Err(e) if e.unexpected_eof() => {\n                return Ok(InitializeResult::NeedMoreData(self));\n            }\n            Err(e) => {\n                return Err(e.into());\n            }\n            Ok(x) => x,\n        };"),
+ ("done_render_local_rename", "crates/jxl-render/src/state.rs",
+  "        let mut guard = self.render.lock().unwrap();\n        *guard = render;\n        self.condvar.notify_all();\n        guard",
+  "        let mut state = self.render.lock().unwrap();\n        *state = render;\n        self.condvar.notify_all();\n        state"),
+ ("errslot_explicit_match", "crates/jxl-render/src/features/noise.rs",
+  "        if r.is_err() {\n            *result.lock().unwrap() = r;\n        }",
+  "        if let Err(e) = r {\n            *result.lock().unwrap() = Err(e);\n        }"),
+]
+
+
+def benign():
+    subprocess.run(["git", "-C", "/repo", "worktree", "remove", "--force", WT], capture_output=True)
+    sh("git", "-C", "/repo", "worktree", "add", "--detach", WT, "HEAD")
+    n = 0
+    try:
+        for name, path, old, new in BENIGN:
+            p = os.path.join(WT, path)
+            s = open(p).read()
+            if s.count(old) < 1:
+                print("BENIGN RECIPE DOES NOT MATCH:", name)
+                continue
+            open(p, "w").write(s.replace(old, new, 1))
+            diff = sh("git", "-C", WT, "diff")
+            open(os.path.join(V, "mutants", "benign", name + ".patch"), "w").write(diff)
+            sh("git", "-C", WT, "checkout", "--", ".")
+            n += 1
+        print(n, "benign patches written")
+    finally:
+        subprocess.run(["git", "-C", "/repo", "worktree", "remove", "--force", WT], capture_output=True)
+
+
+if __name__ == "__main__" and "benign" in sys.argv:
+    benign()
